@@ -454,6 +454,43 @@ def rule_AT4(ctx, tier):
     return rr
 
 
+def rule_AT6(ctx, tier):
+    """Responder::handle_breach decides (index look-up, mempool check / send) and records (add_tracker) in one critical section of
+    both the carrier and the tx_index lock.  Responder::filtered_block_connected starts by taking the carrier lock and updates the
+    index under the tx_index lock, so with this span a block is handled entirely before or entirely after a trigger; AT4's order
+    argument for block_disconnected relies on the same span."""
+    rr = RuleResult("AT6", "handle_breach: the index look-up, the node verdict and add_tracker are one critical section of carrier and tx_index")
+    P = ctx.prog
+    b = P.require(HANDLE_BREACH)
+    bl = ctx.locks.locks(b.id)
+    need = (C["carrier"], C["tx_index"])
+    looks = [bb for bb, t in b.calls() if (call_target(t) or "").startswith("teos::tx_index::TxIndex") and (call_target(t) or "").split("::")[-1] in ("get", "get_height", "contains_key")]
+    acts = [bb for bb, t in b.calls() if (call_target(t) or "").endswith(("Carrier::send_transaction", "Carrier::in_mempool"))]
+    adds = [bb for bb, t in b.calls() if (call_target(t) or "").endswith("Responder::add_tracker")]
+    if not looks or not acts or not adds:
+        rr.anchor_missing("TxIndex::get / Carrier::send_transaction / Responder::add_tracker in Responder::handle_breach")
+        return rr
+    for x in looks + acts + adds:
+        held = bl.classes_at_term(x)
+        miss = [c for c in need if c not in held]
+        if not miss:
+            rr.ok("both locks held at %s" % (call_target(b.term(x)) or "").split("::")[-1], nontrivial=False)
+        else:
+            rr.fail("trigger:not-under-locks:%s" % (call_target(b.term(x)) or "").split("::")[-1], "Responder::handle_breach reaches `%s` without holding %s: a block connected (or disconnected) between the look-up and the tracker's insertion is missed — the penalty mined in it is recorded as InMempoolSince, or a ConfirmedIn(h) tracker is stored after the reorg scan" % ((call_target(b.term(x)) or "").split("::")[-1], " and ".join({C["carrier"]: "the carrier lock", C["tx_index"]: "the tx_index lock"}[c] for c in miss)), where=b.line_of(x))
+    ok_span = True
+    for l_ in looks[:1]:
+        for a_ in adds:
+            if a_ in b.reachable(l_):
+                span = ctx.locks.held_span(b.id, l_, [a_])
+                if not all(c in span for c in need):
+                    ok_span = False
+                    rr.fail("trigger:span-broken", "the carrier / tx_index guards taken for the look-up in Responder::handle_breach are not held continuously up to `add_tracker` (held throughout: %s): the decision and its record are two critical sections" % sorted({C["carrier"]: "carrier", C["tx_index"]: "tx_index"}.get(c, c.split("::")[-1]) for c in span), where=b.line_of(a_))
+    if ok_span:
+        rr.ok("look-up .. add_tracker is one span of carrier and tx_index", sample={"rule": "AT6", "from": "TxIndex::get", "to": "Responder::add_tracker", "held throughout": ["carrier", "tx_index"]})
+    rr.require_floor(1, "AT6 instances")
+    return rr
+
+
 def rule_AT5(ctx, tier):
     rr = RuleResult("AT5", "the purge of outdated users is one critical section of the users lock: selecting them, removing them from memory and deleting their rows")
     P = ctx.prog
